@@ -4,6 +4,7 @@ import OpusProofs.Delay
 import OpusProofs.MdctTdac
 import OpusProofs.MdctWindow
 import OpusProofs.DelayChannels
+import OpusProps.C10
 /-
   C04 — "Encode then decode reproduces the input at the reported delay".
 
@@ -199,5 +200,37 @@ theorem surround_channel_identity :
   ⟨surround_identity, fun ch c hch hc => family255_identity ch c hch hc⟩
 
 example : surroundLayout 6 1 = .ok ⟨4, 2, [0, 4, 1, 2, 3, 5], 3⟩ := by decide
+
+/-- Clause "channels keep their identity" end to end through the multistream layer (composition of the routing
+    theorem of property C10, `OpusProps.C10.routing_pcm`, with `channel_identity`): for **every** multistream encoder
+    and decoder created with the same `(channels, streams, coupled, mapping)`, the two hold the same layout, and for
+    every decode call that succeeds with the per-stream decoders returning the common duration `n` (whatever PCM
+    `pcm` they produce), output channel `c` is written exactly once, with the first `n` decoded samples of the
+    stream side that the encoder filled from **input channel `c`** — for every channel whose mapping byte is not 255
+    and does not repeat an earlier byte.  What remains outside is only the per-stream codec itself. -/
+theorem channel_identity_pcm {α} [OfNat α 0] (pcm : Src → List α)
+    (okE okD : Bool) (ch st co : Int) (m : List Nat) (enc : MSEncoder) (l : ChannelLayout)
+    (henc : encoderCreate okE ch st co m = .ok enc) (hdec : decoderCreate okD ch st co m = .ok l)
+    (fsRate : Nat) (frameSize len : Int) (validate : Res Nat) (rets : List StreamRet)
+    (hrets : rets.length = l.nbStreams) (n : Int) (hn : ∀ s ∈ rets, s.ret = n) (r : Routed)
+    (hd : decodeNative l fsRate frameSize len validate rets = .ok r) (hpos : r.ret > 0) :
+    enc.layout = l ∧ r.ret = n ∧
+    ∀ c v, c < l.nbChannels → l.mapping[c]? = some v → v ≠ 255 → (∀ j, j < c → l.mapping[j]? ≠ some v) →
+      channelWrites pcm r.calls c = [srcSamples pcm n (expectedSrc l c)] ∧
+      encoderInput enc.layout (expectedSrc l c) = (c : Int) := by
+  have hl : enc.layout = l := by
+    rw [encoderCreate_eq] at henc
+    rw [decoderCreate_eq] at hdec
+    have h1 := ((encoderInitImpl_ok_iff okE ch st co m .none (-1) enc).1 henc).2.2.2.2.2.2
+    have h2 := ((decoderInit_ok_iff okD ch st co m l).1 hdec).2.2.2.2
+    rw [h1, h2]
+  obtain ⟨hret, hw⟩ := OpusProps.C10.routing_pcm pcm okD ch st co m l hdec fsRate frameSize len validate rets hrets n hn r hd hpos
+  refine ⟨hl, hret, fun c v hc hv h255 hfirst => ⟨(hw c hc).1, ?_⟩⟩
+  rw [hl]
+  exact encoderInput_expectedSrc l c v hc hv h255 hfirst
+
+/-- Non-vacuity: a 5.1 encoder and decoder with the RFC 7845 layout are both created, with the same layout. -/
+example : encoderCreate true 6 4 2 [0, 4, 1, 2, 3, 5] = .ok ⟨⟨6, 4, 2, [0, 4, 1, 2, 3, 5]⟩, -1, .none⟩ ∧
+    decoderCreate true 6 4 2 [0, 4, 1, 2, 3, 5] = .ok ⟨6, 4, 2, [0, 4, 1, 2, 3, 5]⟩ := by decide
 
 end OpusProps.C04
